@@ -18,6 +18,9 @@ inline Outcome judge(bool serial, bool mem16, const Bytes &raw, bool guaranteed,
     size_t block = frame_struct_size() + raw.size() + slack;
     if (mode == 1) block = frame_struct_size() + raw.size() - 1;
     Session S(serial, mem16, block, true, true, rp::on_wire(serial, raw));
+    // the receiving instance has a history of its own: before the frame arrives it has issued 0..3 requests (a node that is requester and
+    // responder on one instance; a client whose response gets damaged). What it sent is not part of the judgement.
+    { unsigned hist = (unsigned)(vp::fnv(raw.data(), raw.size(), 11) % 4); for (unsigned i = 0; i < hist; i++) { if (mem16) (void)regp_req_read16(&S.p, 0x100u + i, 1); else (void)regp_req_read8(&S.p, 0x100u + i, 1); } (void)S.take_output(); S.led.allocs = 0; }
     if (mode >= 2) S.led.failmask = 1;
     be().reset();
     std::unique_ptr<Session> N; Bytes nout; bool nested = false;
@@ -40,10 +43,14 @@ inline Outcome judge(bool serial, bool mem16, const Bytes &raw, bool guaranteed,
     size_t calls = be().log.size();
     std::vector<Bytes> frames; std::vector<rp::Frame> replies;
     bool split_ok = rp::split_wire(serial, out, frames);
-    for (auto &f : frames) { rp::Frame d; rp::decode(f, d); replies.push_back(d); }
+    bool reply_conformant = true; rp::Verdict reply_verdict = rp::V_OK;
+    for (auto &f : frames) { rp::Frame d; rp::Verdict rv = rp::decode(f, d); if (rv != rp::V_OK && rv != rp::V_DONTCARE) { reply_conformant = false; reply_verdict = rv; } replies.push_back(d); }
     auto fail = [&](const std::string &k, const std::string &m) { o.key = k; o.msg = m + vp::fmt(" [reference: %s; receiver error.id=%d, %zu accesses, %zu reply frames]", rp::verdict_name[o.ref], eid, calls, replies.size()); return o; };
     if (S.led.outstanding() || S.led.double_free) return fail("ledger", "allocation ledger unbalanced");
     if (!split_ok) return fail("reply-not-framed", "reply octets are not well-formed frames");
+    // whatever is answered is itself a frame the peer can read: a meta message or error response that the reference reading rejects never arrives
+    // (not judged for frames that could not be stored and are not well-formed requests: replies to those are don't-care, see the assumptions)
+    if (!reply_conformant && mode == 0) return fail("reply-not-conformant", vp::fmt("a reply frame is rejected by the reference reading of the protocol document (%s)", rp::verdict_name[reply_verdict]));
     bool acked = false;
     for (auto &r : replies) if (r.is_response() && r.meta == rp::C_ACK) acked = true;
     if (mode != 0) {
